@@ -23,6 +23,9 @@ SPEC = {
         {"name": "relay-proxied", "pkg": P, "kind": "rapid", "run": "^TestVerifC19RelayProxied$",
          "quick": {"checks": 600, "shards": 1, "timeout": 240},
          "thorough": {"checks": 6000, "shards": 8, "timeout": 900}},
+        # real loopback TCP sockets, one side ends while the other side's peer reads slowly
+        {"name": "relay-tcp", "pkg": P, "kind": "plain", "run": "^TestVerifC19RelayTCP$",
+         "quick": {"shards": 2, "timeout": 240}, "thorough": {"shards": 8, "timeout": 900}},
         {"name": "relay-free", "pkg": P, "kind": "rapid", "run": "^TestVerifC19RelayFree$",
          "quick": {"checks": 300, "shards": 1, "timeout": 240, "race": True},
          "thorough": {"checks": 6000, "shards": 8, "timeout": 900, "race": True}},
